@@ -112,6 +112,7 @@ fn evaluate(rep: &mut Report, job: &Job, obs: &Obs, samples: bool) {
 pub fn run(rep: &mut Report, lines: &[super::CLine], arch_lines: &[Value], args: &Args) {
     let nworkers = args.opt_usize("jobs", 6);
     let only = args.opt("only").unwrap_or("");
+    if let Some(file) = args.opt("replay_file") { replay_one(rep, file); return }
     let t = std::time::Instant::now();
     if only.is_empty() || only == "records" { records(rep, lines, args, nworkers); }
     rep.note(PID, "seconds_records", json!(t.elapsed().as_secs()));
@@ -366,4 +367,27 @@ fn runs(rep: &mut Report, args: &Args) {
         }
     }
     w.quit();
+}
+
+// ---------------------------------------------------------------------------
+// `bin/check C27 --replay replays/C27-xxxx.json`: one record-level case again
+
+fn replay_one(rep: &mut Report, file: &str) {
+    let v: Value = match std::fs::read_to_string(file).ok().and_then(|t| serde_json::from_str(&t).ok()) {
+        Some(v) => v,
+        None => { rep.note(PID, "fidelity_error", json!(format!("cannot read {file}"))); return }
+    };
+    let b = &v["behaviour"];
+    let (rec, input) = match (b["rec"].as_str(), b["input"].as_str()) {
+        (Some(r), Some(i)) if !i.contains("..") && RECORDS.contains(&r) => (r, unhex(i)),
+        _ => { rep.note(PID, "fidelity_error", json!("only record-level cases with a complete `input` can be replayed singly; re-run the tier")); return }
+    };
+    let rec = *RECORDS.iter().find(|r| **r == rec).unwrap();
+    let pred = mirror_decode(rec, &input);
+    let cls_sig = if pred.len_beyond { "len-huge".to_string() } else { b["corruption"]["k"].as_str().unwrap_or("raw").to_string() };
+    let job = Job {
+        id: "replay".into(), line: format!("D replay {rec} {}", hex(&input)), base: None, file: None, input_len: input.len(),
+        sig: format!("codec/{rec}.{}/{cls_sig}", field_name(rec, pred.fi)), pred: Some(pred), exact: false, key: "replay".into(), behaviour: b.clone(),
+    };
+    run_jobs(rep, "dec", vec![job], 1, Duration::from_secs(10), true);
 }
